@@ -63,7 +63,7 @@ class Sim:
 
         ThreadRunner._waiting_for_results = spin_wait  # type: ignore[method-assign]
         s = sched.Scheduler(choices, expect, max_points=max_points, max_vtime=horizon,
-                            lazy=("_add_histories",), strategy=strategy)
+                            lazy=("_add_histories",), strategy=strategy, exit_points=True)
         s.on_point = on_point
         self.sched = s
 
